@@ -480,6 +480,59 @@ def misc_cases(rep, env):
     rep.case(key='misc')
 
 
+def literal_sequences(rep):
+    """Python literals that are close to, or compare equal to, each other,
+    used one after the other as operands of infix operators in one
+    environment: each term denotes the function of its own literal (a float
+    stands for its exact binary value)."""
+    import operator
+    import pysmt.typing as T
+    groups = [
+        [0.3, Fraction(3, 10)], [1 / 3.0, Fraction(1, 3)],
+        [2 ** 53, 2 ** 53 + 1, float(2 ** 53)],
+        [Fraction(10 ** 20 + 1, 10 ** 20), 1, 1.0],
+        [0.1, Fraction(1, 10), 0.1 + 1e-17, 0.1 + 2e-17],
+        [1e23, 10 ** 23], [-0.0, 0, 0.0], [5e-324, 0],
+        [Fraction(2, 3), 0.6666666666666666, 0.6666666666666667],
+        [7, 7.0, Fraction(7), Fraction(14, 2)],
+    ]
+    ops = [('+', operator.add), ('-', operator.sub), ('*', operator.mul),
+           ('<', operator.lt), ('>=', operator.ge),
+           ('r+', lambda a, b: b + a), ('r*', lambda a, b: b * a),
+           ('r-', lambda a, b: b - a)]
+    for gi, grp in enumerate(groups):
+        for order in (grp, list(reversed(grp))):
+            env = common.fresh_env()
+            mgr = env.formula_manager
+            x = mgr.Symbol('lx', T.REAL)
+            for (oname, op) in ops:
+                for lit in order:
+                    rep.count('literal_sequence_terms')
+                    try:
+                        f = op(x, lit)
+                    except Exception as e:
+                        rep.violation(
+                            'C06/raises/infix-literal-sequence',
+                            'x %s %r raised %r' % (oname, lit, e),
+                            {'case': 'literal sequence %d' % gi})
+                        continue
+                    fb = B.describe(f)
+                    for xv in (Fraction(0), Fraction(1), Fraction(-5, 7)):
+                        exp = op(xv, Fraction(lit))
+                        got = R.evaluate(fb, {'lx': xv})
+                        if got != exp:
+                            rep.violation(
+                                'C06/denotes/infix-literal-sequence',
+                                'x %s %r, built after the same with %r, is '
+                                '%s: at x = %s it denotes %s, not %s' % (
+                                    oname, lit, order[:order.index(lit)],
+                                    B.show(fb, 100), xv, R.vrepr(got),
+                                    R.vrepr(exp)),
+                                {'case': 'literal sequence %d' % gi})
+                            break
+            rep.case(key=('literal-seq', gi, order is grp))
+
+
 def run(rep):
     M.NODE_MONITOR.install()
     import pysmt.shortcuts as S
@@ -510,6 +563,8 @@ def run(rep):
     if rep.shard == 0:
         sbv_cases(rep, env)
         misc_cases(rep, env)
+    if rep.shard == 1 % rep.nshards:
+        literal_sequences(rep)
     rep.count('cases_total', len(allc) if rep.shard == 0 else 0)
 
 
